@@ -50,6 +50,20 @@ def padded_tail(t):
     return False
 
 
+def unaligned_tail(t):
+    """unsized struct whose last field does not start on a multiple of the struct's alignment"""
+    from shapes import is_sized, ssize
+    if t[0] != 'struct' or is_sized(t) or len(t[2]) < 2:
+        return False
+    pos = 0
+    for f in t[2][:-1]:
+        a = align(f)
+        pos = (pos + a - 1) // a * a + ssize(f)
+    a = align(t[2][-1])
+    pos = (pos + a - 1) // a * a
+    return pos % align(t) != 0
+
+
 def compositions(rng, n, k):
     """k random chunk sizes >= 1 (the pipe clips them)"""
     return [rng.choice([1, 1, 2, 3, 5, 8, 13, 64]) for _ in range(k)]
@@ -72,7 +86,8 @@ def stage1(shapes, seed, tier='quick'):
     prio = [(sid, t) for sid, t in ms if padded_middle(t) and not is_sized(t)][:3] + \
            [(sid, t) for sid, t in ms if padded_middle(t) and is_sized(t) and t[0] == 'enum'][:1] + \
            [(sid, t) for sid, t in ms if padded_tail(t) and t[0] == 'enum'][:2] + \
-           [(sid, t) for sid, t in ms if padded_tail(t) and t[0] == 'struct'][:2]
+           [(sid, t) for sid, t in ms if padded_tail(t) and t[0] == 'struct'][:2] + \
+           [(sid, t) for sid, t in ms if unaligned_tail(t)][:2]
     prio = [x for i, x in enumerate(prio) if x not in prio[:i]]
     pick = prio + [x for x in pick if x not in prio][:nshapes - len(prio)]
     for sid, t in pick:
